@@ -229,7 +229,7 @@ fn legacy_cfg_0_4_18(rng: &mut Rng, sc: &Sc, v20: bool) -> Value {
             o.insert("oracle_contract_address".into(), json!(addr32(&sc.cfg.prefix, "oracle-v1")));
         }
         if rng.chance(1, 2) {
-            o.insert("oracle_contract_address_v2".into(), Value::Null);
+            o.insert("oracle_contract_address_v2".into(), if rng.chance(1, 2) { Value::Null } else { json!(addr32(&sc.cfg.prefix, "oracle-v2")) });
         }
     }
     c
